@@ -148,7 +148,7 @@ Proof.
 Qed.
 
 (* ---- trees: a tree built from fresh leaves means what integer arithmetic means ---- *)
-Definition sound (a : asg) (t : utree) (v : value) : Prop :=
+Definition sound (a : asg) (t : utree) (v : pyval) : Prop :=
   vmean a v = ueval a t /\ vgood v /\ (vholds a v <-> uholds a t).
 
 Lemma plain_holds a t v : (forall i, v <> VIneq i) -> uholds a t = True -> (vholds a v <-> uholds a t).
@@ -248,10 +248,23 @@ Lemma step_unfold1 ts env b : build_all ts = Some env ->
   end.
 Proof.
   intro H. pose proof (fun i => build_all_get ts env i H) as G.
-  destruct b as [k|v|v s|c|i|i|i k|i|i j|i j|i op j|i op j|i]; cbn [unfold1 step ubuild]; try reflexivity;
-    try (specialize (G i); destruct (tget ts i) as [t|]; cbn [tap1 ubuild];
-         [destruct G as (x & -> & ->); reflexivity | rewrite G; reflexivity]);
-    (pose proof (G i) as Gi; pose proof (G j) as Gj;
+  destruct b as [k|v|v s|c|i|i|i k|i|i j|i j|i op j|i op j|l|i]; cbn [unfold1 step ubuild]; try reflexivity.
+  9:{ (* BSum: the running sum and its tree stay tied *)
+    set (R := fun (ot : option utree) (ov : option pyval) =>
+                match ot with Some t => ov = ubuild t | None => ov = None end).
+    assert (K : forall l0 ot ov, R ot ov ->
+              R (fold_left (fun acc i => tap2 UAdd acc (tget ts i)) l0 ot)
+                (fold_left (fun acc i => ap2 v_add acc (get env i)) l0 ov)).
+    { induction l0 as [|i r IH]; intros ot ov Hr; cbn [fold_left]; [exact Hr|]. apply IH.
+      specialize (G i). unfold R in *. destruct ot as [t|].
+      - subst ov. destruct (tget ts i) as [u|]; cbn [tap2].
+        + destruct G as (y & -> & Bu). cbn [ubuild]. rewrite Bu. reflexivity.
+        + rewrite G. destruct (ubuild t); reflexivity.
+      - subst ov. reflexivity. }
+    exact (K l (Some (UExprC 0)) (Some (VExpr (mkE 0 []))) eq_refl). }
+  all: try (specialize (G i); destruct (tget ts i) as [t|]; cbn [tap1 ubuild];
+         [destruct G as (x & -> & ->); reflexivity | rewrite G; reflexivity]).
+  all: (pose proof (G i) as Gi; pose proof (G j) as Gj;
      destruct (tget ts i) as [t|]; destruct (tget ts j) as [u|]; cbn [tap2 ubuild];
      [destruct Gi as (x & -> & ->); destruct Gj as (y & -> & ->); reflexivity
      |destruct Gi as (x & -> & _); rewrite Gj; reflexivity
